@@ -247,6 +247,8 @@ def do_op(var, op):
         var.desc = op[1]
     elif k == "get_desc":
         return S(var.desc)
+    elif k == "add_desc":                 # the application changes the table between two uses
+        var.od.add_value_description(op[1], op[2])
     elif k == "set_bits":
         var.bits[py_key(op[1])] = op[2]
     elif k in ("get_bits", "held_bits"):
@@ -514,6 +516,10 @@ def oracle(c, o):
                     return (sig, f"{what}: {res!r}")
                 if res != field_get(raw, r[0], r[1]):
                     return ("bits_get_wrong", f"{what}: returned {res!r}, bits {r[0]}..{r[1]} are {field_get(raw, r[0], r[1]):#x}")
+        elif kind == "add_desc":
+            descs[op[1]] = op[2]
+            if isinstance(res, Err) or nbuf != buf:
+                return ("desc_table_change_failed", f"{what}: {res!r}")
         elif kind == "set_desc":
             cands = [v for v, dd in descs.items() if dd == op[1]]
             fit = [v for v in cands if lo_t <= v <= hi_t]
@@ -790,6 +796,37 @@ def gen_desc(rng, tier):
                 raw0 = rng.choice(list(t))
                 cases.append(dict(kind="ops", **store_fields(rng, dt, raw0, pick_store(rng, i)), descs=adds, ops=ops))
                 i += 1
+    # the table changes while the variable is in use: re-describe a value, swap two names, add an entry
+    for _ in range({"quick": 30, "thorough": 300, "search": 60}[tier]):
+        dt = rng.choice(list(INT_TYPES))
+        n = rng.randrange(2, 8)
+        adds = rand_table(rng, n, dt, False, False)
+        t = table_of(adds)
+        vals = list(t)
+        ops = []
+        for d in rng.sample(list(t.values()), min(len(t), 2)):
+            ops += [["set_desc", d], ["get_raw"], ["get_desc"]]
+        for _ in range(rng.randrange(1, 4)):
+            r = rng.random()
+            if r < 0.4:            # re-describe an existing value (table size unchanged)
+                v = rng.choice(vals); name = rng.choice(WORDS) + str(rng.randrange(100))
+                ops += [["add_desc", v, name], ["set_desc", name], ["get_raw"], ["set_desc", t[v]], ["get_raw"]]
+                t[v] = name
+            elif r < 0.7 and len(vals) >= 2:   # two values swap their names
+                a, b = rng.sample(vals, 2)
+                ops += [["add_desc", a, t[b]], ["add_desc", b, t[a]]]
+                t[a], t[b] = t[b], t[a]
+                ops += [["set_desc", t[a]], ["get_raw"], ["get_desc"], ["set_desc", t[b]], ["get_raw"], ["get_desc"]]
+            else:                  # a new entry
+                lo, hi = rng_of(dt)
+                v = rng.choice([x for x in range(lo, min(hi, lo + 300)) if x not in t] or [max(t) + 1])
+                if not lo <= v <= hi: continue
+                name = rng.choice(WORDS) + str(rng.randrange(100, 200))
+                ops += [["add_desc", v, name], ["set_desc", name], ["get_raw"], ["get_desc"]]
+                t[v] = name; vals.append(v)
+        raw0 = vals[0]
+        cases.append(dict(kind="ops", **store_fields(rng, dt, raw0, pick_store(rng, i)), descs=adds, ops=ops, model=False))
+        i += 1
     # no table at all
     for store in ("mem", "sdo", "pdo"):
         cases.append(dict(kind="ops", **store_fields(rng, 0x06, 7, store), descs=[],
